@@ -466,6 +466,46 @@ def thread_scenario(ctx, rng, seed, ref):
                                            "schedule_prefix": [j for _s, j in merged][:30]})
 
 
+def instance_reuse_scenario(ctx, rng, seed):
+    """The same statements and options through the SAME serializer object twice (an RDFLibJellySerializer instance, a
+    generic sink's serialize()): the second output must be byte-identical to the first."""
+    from pyjelly.integrations.rdflib.serialize import RDFLibJellySerializer
+    idx = rng.randrange(N_WORKLOADS)
+    w = make_workload(seed, idx)
+    phys = 1 if w["cfg"]["physical"] == 1 else 2
+    stmts = [st if phys == 2 or len(st) == 3 else st for st in w["stmts"]]
+    stmts = [st[:3] for st in stmts] if phys == 1 else [st if len(st) == 4 else (*st, ("default",)) for st in stmts]
+    outs = {}
+    try:
+        store = pj.rdflib_store_of(stmts[:1], dataset=phys != 1)       # one statement: store order cannot interfere
+        ser = RDFLibJellySerializer(store)
+        a, b = io.BytesIO(), io.BytesIO()
+        if rng.random() < .5:
+            ser.serialize(a)
+            ser.serialize(b)
+        else:
+            opts = pj.make_options(dict(w["cfg"], physical=phys, logical=pj.FLAT_LOGICAL[phys], preset=(64, 16, 16)))
+            ser.serialize(a, options=opts)
+            ser.serialize(b, options=opts)
+        outs["RDFLibJellySerializer.serialize"] = (a.getvalue(), b.getvalue())
+        sink = pj.generic_sink_of(stmts)
+        a, b = io.BytesIO(), io.BytesIO()
+        sink.serialize(a)
+        sink.serialize(b)
+        outs["GenericStatementSink.serialize"] = (a.getvalue(), b.getvalue())
+    except Exception as e:  # noqa: BLE001
+        ctx.violation({"clause": "second-use-of-instance-raised", "workload": idx, "scenario": "instance-reuse",
+                       "summary": f"using a serializer object a second time raised {type(e).__name__}: {e}"})
+        return
+    ctx.observe("instance-reuse-runs")
+    for what, (x, y) in outs.items():
+        if x != y:
+            ctx.violation({"clause": "output-depends-on-history", "workload": idx, "scenario": "instance-reuse",
+                           "summary": f"{what} called twice on one object with the same data and options: {len(x)} bytes, then {len(y)} "
+                                      f"different bytes"})
+    ctx.case(("instance-reuse", idx, rng.random()), False)
+
+
 def run_shard(ctx):
     seed = ctx.seed
     # (d) solo digests from fresh subprocesses under several hash seeds
@@ -493,6 +533,9 @@ def run_shard(ctx):
     while not ctx.out_of_time():
         rng = ctx.rng("scenario", n)
         n += 1
+        if n % 9 == 4:
+            instance_reuse_scenario(ctx, rng, seed)
+            continue
         [history_scenario, interleave_scenario, interleave_scenario, thread_scenario][n % 4](ctx, rng, seed, ref)
     after = module_state_snapshot()
     changed = sorted(k for k in set(before) | set(after) if before.get(k) != after.get(k))
@@ -515,6 +558,8 @@ def replay(w: dict):
     seed = int(os.environ.get("VERIF_SEED", "0"))
     ref = reference_from_subprocess(seed, "0")
     i = w["workload"]
+    if w["scenario"] == "instance-reuse":
+        return {"clause": w["clause"], "summary": "re-run ./check C12 with the same VERIF_SEED"}
     if w["scenario"] == "hashseed":
         other = reference_from_subprocess(seed, w["hashseed"] if w["hashseed"] != "random" else "12345")
         return None if other[str(i)] == ref[str(i)] else {"clause": w["clause"], "summary": "digest differs between hash seeds"}
